@@ -79,7 +79,9 @@ def run(report, db, tier):
                      'publication: no protocol number is ordered '
                      'numerically (snapshot numbers are above every '
                      'release number)')
-    nf = shared.numeric_version_order(report, R9, db, P)
+    # (version *guards* only: which of several allowed versions a connection
+    # announces is C08's / C09's concern, not the play state's)
+    nf = shared.numeric_version_order(report, R9, db, P, collections=False)
     report.floor('functions scanned for numeric version order', nf, 300)
     # "for every id value and protocol version": the id's wire type changes
     # at a development version the changelog dates (C07's reference)
@@ -87,6 +89,46 @@ def run(report, db, tier):
     nb = check_boundaries(report, db, P, load_ref(), rid='R11.1b',
                           only=lambda b: b['packet'].startswith('keep alive'))
     report.floor('keep-alive boundary cells', nb, 300)
+    # "with compression on and off": under 1.8 the server switches
+    # compression on in the play state; the arm that handles it only runs if
+    # the packet is registered there with its published id
+    from ..fold import ClassVal
+    from ..protocol import Raises
+    from .c07 import shape
+    Rx = report.rule('R11.5r', 'the play-state set-compression packet is '
+                     'registered where the documentation has it (1.8: id '
+                     '0x46, one VarInt)')
+    for key, spec in sorted(load_ref().get('extra_packets', {}).items()):
+        mod, qn = spec['cls'].split(':')
+        xci = db.get_class(mod, qn)
+        xcv = ClassVal(xci)
+        for row in spec['rows']:
+            for pv in row['protocols']:
+                t = P.table(spec['direction'], spec['state'], pv)
+                tf = P.table_func(spec['direction'], spec['state'])
+                if isinstance(t, Raises) or xcv not in t:
+                    report.violation(
+                        Rx, 'extra:%s:unregistered:%d' % (key, pv), tf.path,
+                        tf.node, tf.qualname, '%s is not registered in the '
+                        '%s/%s table of protocol %s: the frame is read as an '
+                        'unknown packet, the arm of the reactor never runs '
+                        'and every later frame is read in the wrong framing'
+                        % (key, spec['direction'], spec['state'],
+                           P.vname(pv)))
+                    continue
+                i = P.table_id(xcv, pv)
+                d = P.definition(xcv, pv)
+                lay = [shape(ty) for e in d for k, ty in e.items()] \
+                    if isinstance(d, list) else None
+                if i != row['id'] or lay != row['layout']:
+                    report.violation(
+                        Rx, 'extra:%s:shape:%d' % (key, pv), xci.path,
+                        xci.node, xci.qualname, '%s in protocol %s has id '
+                        '%r and layout %r; published: 0x%02X %r' % (
+                            key, P.vname(pv), i, lay, row['id'],
+                            row['layout']))
+                else:
+                    report.ok(Rx, '%s @ %s' % (key, P.vname(pv)))
     # "without disturbing later ones": a frame takes exactly its own bytes
     from .c01 import isolation
     isolation(report, db, cg, S, M, rule_id='R11.3i')
